@@ -1,6 +1,95 @@
-import Mqtt5V.Proofs.TraceIn7
+import Mqtt5V.Proofs.TraceInMsg
+/-! Order in the composed inbound model: QoS 0 / QoS 1 messages are delivered in arrival order (C04). -/
 namespace Mqtt5V.Proofs.TraceIn
 open Mqtt5V.Model.TraceIn
+
+
+/-! ### order: QoS 0 and QoS 1 messages reach the application in the order in which they arrived -/
+def storedQ (q : Nat) (s : S) : List Nat := s.stored.filterMap fun x => if x.1 = q then some x.2.2 else none
+def ackMsgs (rem : List Item) : List Nat := rem.filterMap fun it => match it with | .ackI _ m => some m | _ => none
+def seq1 (s : S) (rem : List Item) : List Nat := storedQ 1 s ++ ackMsgs rem ++ s.ackQ.map (·.2)
+
+structure OrdInv (hist : List Ev) (s : S) (rem : List Item) : Prop where
+  q0 : (delivered 0 hist ++ storedQ 0 s).Sublist (received 0 hist)
+  q1 : (delivered 1 hist ++ seq1 s rem).Sublist (received 1 hist)
+
+theorem received_snoc (q : Nat) (h : List Ev) (e : Ev) :
+    received q (h ++ [e]) = received q h ++ (match e with | .rxPub q' _ m => if q' = q then [m] else [] | _ => []) := by
+  simp only [received, List.filterMap_append]
+  cases e <;> simp
+  split <;> simp_all
+
+theorem delivered_snoc (q : Nat) (h : List Ev) (e : Ev) :
+    delivered q (h ++ [e]) = delivered q h ++ (match e with | .deliver q' _ m => if q' = q then [m] else [] | _ => []) := by
+  simp only [delivered, List.filterMap_append]
+  cases e <;> simp
+  split <;> simp_all
+
+theorem waitRel_ord (s : S) (pid msg : Nat) : (waitRel s pid msg).stored = s.stored ∧ (waitRel s pid msg).ackQ = s.ackQ := by
+  unfold waitRel; split <;> exact ⟨rfl, rfl⟩
+
+theorem ord_congr {hist : List Ev} {s s' : S} {rem : List Item} (I : OrdInv hist s rem) (h1 : s'.stored = s.stored) (h2 : s'.ackQ = s.ackQ) :
+    OrdInv hist s' rem := by
+  refine ⟨?_, ?_⟩
+  · simpa only [storedQ, h1] using I.q0
+  · simpa only [seq1, storedQ, h1, h2] using I.q1
+
+theorem storedQ_append (q : Nat) (s : S) (x : Nat × Nat × Nat) :
+    storedQ q { s with stored := s.stored ++ [x] } = storedQ q s ++ (if x.1 = q then [x.2.2] else []) := by
+  simp only [storedQ, List.filterMap_append, List.filterMap_cons, List.filterMap_nil]
+  by_cases h : x.1 = q <;> simp [h]
+
+theorem finishOk_ord {hist : List Ev} {s : S} {it : Item} {rest : List Item} (I : OrdInv hist s (it :: rest)) : OrdInv hist (finishOk s it) rest := by
+  cases it with
+  | ackI pid msg =>
+    refine ⟨?_, ?_⟩
+    · simp only [finishOk, storedQ_append]; simpa using I.q0
+    · have := I.q1
+      simp only [finishOk, seq1, storedQ_append, ackMsgs, List.filterMap_cons] at this ⊢
+      simpa [List.append_assoc] using this
+  | recI pid msg =>
+    have := waitRel_ord s pid msg
+    refine ord_congr (s := s) ?_ this.1 this.2
+    exact ⟨I.q0, by have := I.q1; simpa only [seq1, ackMsgs, List.filterMap_cons] using this⟩
+  | compI pid msg =>
+    refine ⟨?_, ?_⟩
+    · simp only [finishOk, storedQ_append]; simpa using I.q0
+    · have := I.q1
+      simp only [finishOk, seq1, storedQ_append, ackMsgs, List.filterMap_cons] at this ⊢
+      simpa [List.append_assoc] using this
+
+theorem sublist_drop_mid {α : Type} (a : List α) (x : α) (b c : List α) (h : (a ++ ([x] ++ b)).Sublist c) : (a ++ b).Sublist c :=
+  List.Sublist.trans (List.Sublist.append (List.Sublist.refl a) (List.sublist_append_right [x] b)) h
+
+theorem finishFail_ord {hist : List Ev} {s : S} {it : Item} {rest : List Item} (I : OrdInv hist s (it :: rest)) : OrdInv hist (finishFail s it) rest := by
+  cases it with
+  | ackI pid msg =>
+    refine ⟨I.q0, ?_⟩
+    have := I.q1
+    simp only [finishFail, seq1, ackMsgs, List.filterMap_cons] at this ⊢
+    -- the message of the failed PUBACK is given up: a sublist stays a sublist
+    have h2 : (delivered 1 hist ++ storedQ 1 s ++ ([msg] ++ (List.filterMap (fun it => match it with | .ackI _ m => some m | _ => none) rest ++ s.ackQ.map (·.2)))).Sublist (received 1 hist) := by
+      simpa [List.append_assoc] using this
+    have := sublist_drop_mid _ msg _ _ h2
+    simpa [List.append_assoc] using this
+  | recI pid msg =>
+    have := waitRel_ord s pid msg
+    refine ord_congr (s := s) ?_ this.1 this.2
+    exact ⟨I.q0, by have := I.q1; simpa only [seq1, ackMsgs, List.filterMap_cons] using this⟩
+  | compI pid msg =>
+    have := waitRel_ord s pid msg
+    refine ord_congr (s := s) ?_ this.1 this.2
+    exact ⟨I.q0, by have := I.q1; simpa only [seq1, ackMsgs, List.filterMap_cons] using this⟩
+
+theorem drain_ord {hist : List Ev} (f : S → Item → S) (hf : ∀ s it rest, OrdInv hist s (it :: rest) → OrdInv hist (f s it) rest) :
+    ∀ (items : List Item) (s : S), OrdInv hist s items → OrdInv hist (drain f s items) [] := by
+  intro items
+  induction items with
+  | nil => intro s I; simpa [drain] using I
+  | cons it rest ih => intro s I; exact ih _ (hf s it rest I)
+
+
+
 
 def Ord (hist : List Ev) (s : S) : Prop := OrdInv hist s s.batch
 
@@ -187,5 +276,6 @@ theorem delivered_in_arrival_order {tr : List Ev} (hacc : accepts tr = true) (pr
   obtain ⟨s1, hr1, _⟩ := run_prefix hr
   have I := ord_reach hr1
   exact ⟨List.Sublist.trans (List.sublist_append_left _ _) I.q0, List.Sublist.trans (List.sublist_append_left _ _) I.q1⟩
+
 
 end Mqtt5V.Proofs.TraceIn
